@@ -398,6 +398,9 @@ func checkC16(c *Ctx) {
 								}
 							}
 						}
+						if !bounded && consumingLoop(pk.TypesInfo, x) {
+							bounded = true // every full iteration drops at least one element of a string or slice
+						}
 						r.Check(bounded, "R16b", c.enclosingFunc(pk, x.Pos())+" for-loop", c.P.Pos(x.Pos()), "loop without a range clause or a monotone induction bound")
 					case *ast.CallExpr:
 						name := ""
@@ -1705,4 +1708,120 @@ func makeSizesNonNegative(c *Ctx, rid string) {
 		})
 	}
 	r.OKd(rid, "sized make calls in generator packages inspected", "", map[string]any{"sized_make_calls": n})
+}
+
+// consumingLoop: a scan that terminates because it eats its input. The last statement of the body is `v = v[lo:]` for a
+// string or slice local v, with lo = X + c, c a constant >= 1 and every operand of X non-negative (len, a non-negative
+// constant, or a local that an earlier top-level `if id < 0 { break | return }` of the body has excluded from being
+// negative); no `continue` skips that statement. Each iteration that does not leave the loop shortens v by at least c.
+func consumingLoop(info *types.Info, fs *ast.ForStmt) bool {
+	if fs.Post != nil || fs.Body == nil || len(fs.Body.List) == 0 {
+		return false
+	}
+	hasContinue := false
+	ast.Inspect(fs.Body, func(n ast.Node) bool {
+		switch x := n.(type) {
+		case *ast.FuncLit:
+			return false
+		case *ast.ForStmt, *ast.RangeStmt:
+			if n != ast.Node(fs) {
+				return false // a continue inside an inner loop belongs to that loop
+			}
+		case *ast.BranchStmt:
+			if x.Tok == token.CONTINUE || x.Tok == token.GOTO {
+				hasContinue = true
+			}
+		}
+		return true
+	})
+	if hasContinue {
+		return false
+	}
+	last, ok := fs.Body.List[len(fs.Body.List)-1].(*ast.AssignStmt)
+	if !ok || last.Tok != token.ASSIGN || len(last.Lhs) != 1 || len(last.Rhs) != 1 {
+		return false
+	}
+	v, ok := last.Lhs[0].(*ast.Ident)
+	if !ok {
+		return false
+	}
+	switch t := info.TypeOf(v).Underlying().(type) {
+	case *types.Slice:
+	case *types.Basic:
+		if t.Info()&types.IsString == 0 {
+			return false
+		}
+	default:
+		return false
+	}
+	sl, ok := ast.Unparen(last.Rhs[0]).(*ast.SliceExpr)
+	if !ok || sl.High != nil || sl.Low == nil {
+		return false
+	}
+	if b, ok := ast.Unparen(sl.X).(*ast.Ident); !ok || info.ObjectOf(b) != info.ObjectOf(v) {
+		return false
+	}
+	// locals excluded from being negative by an earlier exit
+	guarded := map[types.Object]bool{}
+	for _, st := range fs.Body.List[:len(fs.Body.List)-1] {
+		ifs, ok := st.(*ast.IfStmt)
+		if !ok || ifs.Else != nil || len(ifs.Body.List) == 0 {
+			continue
+		}
+		exits := false
+		switch e := ifs.Body.List[len(ifs.Body.List)-1].(type) {
+		case *ast.BranchStmt:
+			exits = e.Tok == token.BREAK && e.Label == nil
+		case *ast.ReturnStmt:
+			exits = true
+		}
+		be, ok := ast.Unparen(ifs.Cond).(*ast.BinaryExpr)
+		if !exits || !ok || be.Op != token.LSS {
+			continue
+		}
+		if tv, ok := info.Types[be.Y]; ok && tv.Value != nil && constant.Sign(tv.Value) == 0 {
+			if id, ok := ast.Unparen(be.X).(*ast.Ident); ok {
+				guarded[info.ObjectOf(id)] = true
+			}
+		}
+	}
+	// lo = sum of terms; at least one constant term >= 1, every other term non-negative
+	var terms []ast.Expr
+	var flat func(e ast.Expr)
+	flat = func(e ast.Expr) {
+		e = ast.Unparen(e)
+		if be, ok := e.(*ast.BinaryExpr); ok && be.Op == token.ADD {
+			flat(be.X)
+			flat(be.Y)
+			return
+		}
+		terms = append(terms, e)
+	}
+	flat(sl.Low)
+	positive := false
+	for _, t := range terms {
+		if tv, ok := info.Types[t]; ok && tv.Value != nil && tv.Value.Kind() == constant.Int {
+			switch constant.Sign(tv.Value) {
+			case 1:
+				positive = true
+			case -1:
+				return false
+			}
+			continue
+		}
+		switch x := t.(type) {
+		case *ast.Ident:
+			if !guarded[info.ObjectOf(x)] {
+				return false
+			}
+		case *ast.CallExpr:
+			id, ok := x.Fun.(*ast.Ident)
+			if !ok || id.Name != "len" {
+				return false
+			}
+		default:
+			return false
+		}
+	}
+	return positive
 }
